@@ -5,6 +5,8 @@ import "io"
 type vpIt struct {
 	key []byte
 	err bool
+	rec any
+	bad bool
 }
 
 func vpKey(b *BED) []byte {
@@ -15,6 +17,10 @@ func vpKey(b *BED) []byte {
 func vpIter(api int, r io.Reader, fn func(vpIt) bool) {
 	for b, err := range Reader(r) {
 		it := vpIt{err: err != nil}
+		it.bad = (b == nil) == (err == nil)
+		if b != nil {
+			it.rec = b
+		}
 		if err == nil {
 			it.key = vpKey(b)
 		}
@@ -35,6 +41,8 @@ func vpIterFile(api int, path string, fn func(vpIt) bool) {
 		}
 	}
 }
+
+func vpRawOK(c byte) bool { return true }
 
 func vpErrIsLast() bool { return true }
 
@@ -68,4 +76,49 @@ func vpWriteSample(tag string, shape int, w io.Writer) (error, int) {
 		}
 	}
 	return nil, total
+}
+
+// vpTemplate: 3+k tab-separated fields of 1 symbolic byte (no TAB/LF inside;
+// RGB and block lists 3 bytes so that commas can appear anywhere).
+func vpTemplate(k int) []byte {
+	n := 3 + k
+	var out []byte
+	for i := 0; i < n; i++ {
+		if i > 0 {
+			out = append(out, '\t')
+		}
+		ln := 1
+		if i == 8 || i >= 10 {
+			ln = 3
+		}
+		tok := vpBytes("f"+vpNum(i), ln)
+		for _, c := range tok {
+			vpAssume(c != '\t' && c != '\n')
+		}
+		out = append(out, tok...)
+	}
+	return append(out, '\n')
+}
+
+func vpFixedPoint(rec any) (bool, bool) {
+	b := rec.(*BED)
+	for _, s := range []string{b.Chrom, b.Name} {
+		for i := 0; i < len(s); i++ {
+			if s[i] == '\t' || s[i] == '\n' || s[i] == '\r' {
+				return false, false
+			}
+		}
+	}
+	if len(b.Chrom) > 0 && b.Chrom[0] == '#' || b.Chrom == "" && b.N == 3 {
+		// a line starting with '#' is a comment
+		if len(b.Chrom) > 0 {
+			return false, false
+		}
+	}
+	var w vpBuf
+	if b.Write(&w) != nil {
+		return true, false
+	}
+	got := vpCollect(vpOneShot(w.b), 3)
+	return true, len(got) == 1 && !got[0].err && vpSameBED(got[0].b, b)
 }
